@@ -12,7 +12,7 @@ RULE = (
     "enumerated + seeded: (E1, both tiers, exhaustive) every signature with 1-2 inputs, 1 output, one pair per argument, "
     "2 dummy names, 5 positions (1100); (E2, thorough, exhaustive) 1-2 inputs, 1 output, 1-2 pairs, 2 names, 3 positions "
     "(75852); (S) seeded signatures up to 3 inputs x 2 outputs x 2 pairs x 3 names drawn from a pool with hostile "
-    "identifiers; for every S signature EVERY single-character deletion, substitution and insertion over the alphabet "
+    "identifiers; for every S signature EVERY single-character deletion, substitution and insertion over the alphabet (now with line break and tab) "
     "'(),:->_Xc1 ' is classified by an independent scanner and compared with accept/reject of from_string; accepted "
     "strings must print back (spaces aside) and re-parse to themselves; Annotated type hints must denote the same "
     "signature; equivalent() is compared with first-appearance canonical equality on bijective renamings (incl. swaps), "
@@ -30,7 +30,7 @@ REQUIRED_REACH = [
 ]
 EXHAUSTIVE = {"quick": False, "thorough": True}
 EXHAUSTIVE_NOTE = "E1 is enumerated completely in both tiers, E2 in the thorough tier; S and the corruptions of S are seeded samples (all corruptions of each sampled string)"
-ALPHABET = "(),:->_Xc1 "
+ALPHABET = "(),:->_Xc1 \n\t"  # incl. a line break and a tab: stray characters like any other (a blank is the only insignificant one)
 NAME_POOL = ["X", "Y", "Z", "lon", "k1", "_q", "x", "t", "e", "r", "n", "c", "xcenter", "leftover", "inner_x", "XX", "XXY",
              "outerspace", "Right", "a_b_c", "l", "σ", "x_ρ", "ñ"]
 
